@@ -887,6 +887,23 @@ impl Prop for C15 {
                         }
                     }
                     rep.label("search_burst");
+                    // point lookups take a different path from the BulkQuery census (cache ->
+                    // recent-write tier -> cold tier, each behind a circuit breaker): after a
+                    // burst every live document must still be found by Query
+                    for (idv, want) in model.clone() {
+                        let resp = s.call(|mut c, k| async move { c.query(with_key(pb::QueryRequest { doc_id: idv, include_embedding: false, namespace: String::new() }, k.as_deref())).await })?;
+                        answered(&what, &resp)?;
+                        match &resp {
+                            Ok(x) => {
+                                let x = x.get_ref();
+                                if !x.found || x.metadata.get("v") != Some(&want) {
+                                    return Err(Failure::new("query_differs", format!("{}: after the burst Query({}) answers found={} stamp {:?}; the model has {:?}", what, idv, x.found, x.metadata.get("v"), want)));
+                                }
+                            }
+                            Err(st) => return Err(Failure::new("valid_read_refused", format!("{}: after the burst Query({}) answered {:?} {}", what, idv, st.code(), st.message())).with_sig(sigk("valid_read_refused", "Query"))),
+                        }
+                        rep.count("point_lookups_after_bursts", 1);
+                    }
                 }
                 Op::BulkSearch(list) => {
                     let reqs: Vec<pb::SearchRequest> = list.iter().map(sreq_of).collect();
